@@ -25,7 +25,14 @@ func (g *gen) valset(n, base int, maxw int) []Val {
 		if maxw < 0 { // huge weights: totals around 2^62 .. 2^65 (uint64 arithmetic of the thresholds; overflowing totals must be rejected)
 			w = uint64(1)<<uint(60+g.r.Intn(4)) + uint64(g.r.Intn(3))
 		}
-		vs = append(vs, Val{A: uint32(base + i), W: w})
+		v := Val{A: uint32(base + i), W: w}
+		switch g.r.Intn(8) { // BLS keys: mostly one per address; sometimes shared between validators or permuted
+		case 0:
+			v.K = uint32(1 + g.r.Intn(2))
+		case 1:
+			v.K = uint32(1 + (base+i+1)%3)
+		}
+		vs = append(vs, v)
 	}
 	// shuffle: SetBFTParameters must sort
 	for i := len(vs) - 1; i > 0; i-- {
